@@ -184,10 +184,16 @@ func lkConfig(base string, small, bg bool) *comet.StorageConfig {
 	return cfg
 }
 
-func lkOpenRes(err error) string {
-	if err == nil {
-		return "opened"
-	}
+// Results of calls as the monitor sees them: WHAT was called and WHETHER it failed —
+//
+//	opened | open-err:<class>     closed-ok | close-err:<class>     op-ok | op-err:<class> | op-err-any:<class>
+//
+// C17 says that certain calls fail, never which error they report, so the monitor (Lock.lean)
+// looks at the part before the colon only. <class> is informational: it is guessed from the
+// message text (no property constrains it; a reworded message lands in "other") and is shown as
+// a flag in the evidence.
+
+func lkOpenClass(err error) string {
 	m := err.Error()
 	switch {
 	case strings.Contains(m, "locked by another process"):
@@ -203,7 +209,14 @@ func lkOpenRes(err error) string {
 	case strings.Contains(m, "failed to list segments"):
 		return "e-readdir2"
 	}
-	return "other:" + strings.ReplaceAll(m, " ", "_")
+	return "other"
+}
+
+func lkOpenRes(err error) string {
+	if err == nil {
+		return "opened"
+	}
+	return "open-err:" + lkOpenClass(err)
 }
 
 func lkCloseRes(err error) string {
@@ -211,16 +224,31 @@ func lkCloseRes(err error) string {
 	case err == nil:
 		return "closed-ok"
 	case strings.Contains(err.Error(), "already closed"):
-		return "already-closed"
+		return "close-err:already-closed"
 	}
-	return "other:" + strings.ReplaceAll(err.Error(), " ", "_")
+	return "close-err:other"
 }
 
-func lkUseRes(err error) string {
-	if err != nil && strings.Contains(err.Error(), "storage is closed") {
-		return "op-closed"
+// lkUseRes: an operation on a handle either got past the `closed` test or was refused by it.
+// Which of the two a FAILED call was is read off the situation, not off the error's wording:
+// every call lkUse makes is valid on an open handle (a well-formed document under a fresh id, a
+// flat index that needs no training, a well-formed query, a Flush) and its body cannot fail
+// there — measured on every run: a failure on a handle the model says is open is reported —, so a
+// failure is the refusal (op-err). The one exception is Remove, whose body fails on an open handle
+// whenever the id is not in the active memtable: a failed Remove says nothing about which of the
+// two happened (op-err-any; a Remove that succeeds on a closed handle is still caught).
+func lkUseRes(kind string, err error) string {
+	if err == nil {
+		return "op-ok"
 	}
-	return "op-ok" // passed the closed test (the body's own result is not C17's business)
+	cls := "other"
+	if strings.Contains(err.Error(), "storage is closed") {
+		cls = "closed"
+	}
+	if kind == "remove" {
+		return "op-err-any:" + cls
+	}
+	return "op-err:" + cls
 }
 
 var lkDocSeq atomic.Uint32
@@ -247,7 +275,7 @@ func lkUse(s *comet.PersistentHybridIndex, kind string) (res string, added bool)
 	default:
 		return "other:unknown-kind", false
 	}
-	return lkUseRes(err), added
+	return lkUseRes(kind, err), added
 }
 
 // lkMisc calls the exported methods that have no closed test, on a closed handle.
